@@ -2653,6 +2653,12 @@ func (rl *clientConnReadLoop) handleResponse(cs *clientStream, f *MetaHeadersFra
 
 	cs.bufPipe.setBuffer(&dataBuffer{expected: res.ContentLength})
 	cs.bytesRemain = res.ContentLength
+	if !bodyAllowedForStatus(statusCode) {
+		// A Content-Length on a response whose status never has a body
+		// (RFC 9110 section 8.6 allows it on 304) does not announce one:
+		// do not expect that many DATA bytes before END_STREAM.
+		cs.bytesRemain = -1
+	}
 	res.Body = transportResponseBody{cs}
 
 	if cs.requestedGzip && ascii.EqualFold(res.Header.Get("Content-Encoding"), "gzip") {
